@@ -685,3 +685,28 @@ mod test {
     assert_eq!(has.defined_vars(), ["A"].into_iter().collect());
   }
 }
+
+#[cfg(feature = "verif-hooks")]
+pub mod verif_hooks {
+  use super::*;
+  impl<L: Language> Inside<L> {
+    pub fn verif_parts(&self) -> (&Rule<L>, &StopBy<L>, Option<u16>) {
+      (&self.outer, &self.stop_by, self.field)
+    }
+  }
+  impl<L: Language> Has<L> {
+    pub fn verif_parts(&self) -> (&Rule<L>, &StopBy<L>, Option<u16>) {
+      (&self.inner, &self.stop_by, self.field)
+    }
+  }
+  impl<L: Language> Precedes<L> {
+    pub fn verif_parts(&self) -> (&Rule<L>, &StopBy<L>) {
+      (&self.later, &self.stop_by)
+    }
+  }
+  impl<L: Language> Follows<L> {
+    pub fn verif_parts(&self) -> (&Rule<L>, &StopBy<L>) {
+      (&self.former, &self.stop_by)
+    }
+  }
+}
